@@ -338,8 +338,9 @@ func init() {
 			}
 		}
 		x.note("views of the Trim/Cut families checked against the implied positions on %d calls", nViews)
-		// results must not depend on whether the arguments share memory
+		// results must not depend on whether the arguments share memory, nor on nil versus empty
 		x.aliasedViews(allSS)
+		x.nilArgs()
 		// concurrent: G goroutines, each walks all jobs from a different offset
 		G := 64
 		var wg sync.WaitGroup
